@@ -28,6 +28,8 @@ class Module:
             self.tree = ast.parse(source, filename=relpath)
         except SyntaxError as exc:  # pragma: no cover - reported as analysis error
             raise AnalysisError(f"cannot parse {relpath}: {exc}") from exc
+        self.tree = _Canon().visit(self.tree)
+        ast.fix_missing_locations(self.tree)
         self.digest = hashlib.sha256(source.encode()).hexdigest()[:16]
         # parent links + owning module for every node
         for node in ast.walk(self.tree):
@@ -37,6 +39,18 @@ class Module:
 
     def __repr__(self) -> str:
         return f"<Module {self.name}>"
+
+
+class _Canon(ast.NodeTransformer):
+    """Canonical forms that carry no meaning for the rules: `x: T = v` on a plain local is read as `x = v`."""
+
+    def visit_AnnAssign(self, node: ast.AnnAssign):  # noqa: N802
+        self.generic_visit(node)
+        if isinstance(node.target, ast.Name) and node.value is not None:
+            new = ast.Assign(targets=[node.target], value=node.value, type_comment=None)
+            new._annotation = node.annotation  # type: ignore[attr-defined]
+            return ast.copy_location(new, node)
+        return node
 
 
 def _read_tree(repo: Path) -> dict[str, str]:
